@@ -917,7 +917,7 @@ var witnessYY = []string{
 	"a = 1 OR b = 2 AND c = 3", "a = 1 AND b = 2 OR c = 3", "a / 2.0 > 1.2", "time > 1ns", "b / -a > 1", "b % -a = 0", "a & 1 = 1",
 	"a | 1 = 1", "a ^ 1 = 1", "host =~ /a\\/b/", "a = -1h", "\"nan\" > 1", "(a = 1 OR b = 2) AND c = 3", "a = 1 OR (b = 2 AND c = 3)",
 	"v = 9223372036854775808", "- -a > 1", "a * -b > 0", "a - -b > 0", "x = 'it\\'s' AND y = 'back\\\\slash'",
-	"a IN (1, 2.5, 'x')", "a IN (-1, 2)", "a NOT IN (-2.5)", "host IN ('it\\'s', 'b')", "a IN (0)", "h =~ /a\nb/", "h !~ /x\n/ AND v > 1",
+	"a IN (1, 2.5, 'x')", "a IN (-1, 2)", "a NOT IN (-2.5)", "host IN ('it\\'s', 'b')", "a IN (0)", "v NOT IN (1, 2.5, '')", "h =~ /a\nb/", "h !~ /x\n/ AND v > 1",
 }
 
 func main() {
